@@ -533,6 +533,17 @@ def r6_json_keys(ctx):
                 else:
                     ctx.ok("C17.R6", loc(fi, c), "job instance JSON writer: values JSON cannot represent are rejected")
     ctx.floor("C17.R6.writers", nw, 1)
+    # no writer of a job instance goes through pydantic's own JSON encoder: it coerces what JSON cannot represent (bytes -> str, set -> list,
+    # int / tuple keys -> str) instead of rejecting it, so the instance read back differs silently from the one submitted
+    for fi in repo.all_funcs():
+        if not fi.module.name.startswith(("cascade.gateway", "cascade.benchmarks")):
+            continue
+        for c in walk_scope(fi.node):
+            if isinstance(c, _ast.Call) and isinstance(c.func, _ast.Attribute) and c.func.attr in ("model_dump_json", "json") and not c.args \
+                    and ("job_instance" in unparse(c.func.value) or "instance" in unparse(c.func.value).lower()):
+                ctx.violation("C17.R6", fi.qual, loc(fi, c), "job instance written by the strict encoder",
+                              f"{unparse(c)[:90]}: pydantic's JSON dump silently converts values JSON cannot represent (bytes, sets, non-string keys); the sibling writer "
+                              f"uses orjson.dumps(<instance>.dict()), which rejects them — a job submitted through this path is read back altered")
 
 
 RULES = [r1_layouts, r2_registry, r3_widths, r4_pickle_pairs, r4b_report_kind, r5_gateway, r6_json_keys]
@@ -573,6 +584,12 @@ def r7_result_codec(ctx):
     en, dn = sorted({n for n, _ in enc}), sorted({n for n, _ in decs})
     if len(en) != 1 or len(dn) != 1:
         ctx.undecided("C17.R7", loc(fe), f"cannot identify one text encoder / decoder of the result: encoders {en}, decoders {dn}")
+        return
+    whole = [e for _, e in enc if e.data["args"] and vkey(e.data["args"][0]) == "RESULT_BYTES"]
+    if not whole:
+        ctx.violation("C17.R7", fe.qual, loc(fe, enc[0][1].node), "the result is encoded in one piece",
+                      f"base64.{en[0]} is applied to {vkey(enc[0][1].data['args'][0])[:80]}, a part of the result, and the pieces are put together afterwards: unless every piece "
+                      f"is a multiple of 3 bytes long each carries its own '=' padding, and the decoder stops at the first one — long results come back truncated")
         return
     if B64_PAIRS.get(en[0]) != dn[0]:
         ctx.violation("C17.R7", fe.qual, loc(fe, enc[0][1].node), "result encoder and decoder are inverse",
@@ -636,3 +653,4 @@ def r8_concrete_roundtrip(ctx):
 
 
 RULES.append(r8_concrete_roundtrip)
+RULES.append(lazy("C06", "r4_r5_listener", "the reader side of the frame encoding: every frame sequence the senders produce (also an empty value frame) decodes to the message sent"))
